@@ -6,6 +6,7 @@ import itertools
 import json
 import os
 import random
+import re
 import subprocess
 import sys
 from multiprocessing import Pool
@@ -99,6 +100,30 @@ def _history_job(args):
             if o1 != o2 or o3 != o3_fresh:
                 viol.append((dict(nodes=nodes, edges=edges, spec=rules._jsonable_spec(p[1]), first=o1[0], second=o2[0], other_arch=o3[0], other_arch_fresh=o3_fresh[0]),
                              "re-applying the same rule object gives a different outcome", {"kind": "reapply"}))
+        # rule objects whose subject / object is a regex or partial name, applied to architectures in which the pattern
+        # matches different modules (or nothing): each evaluation must equal that of a fresh rule object
+        rx_nodes = [x for x in nodes if x != "r"]
+        if len(rx_nodes) >= 3:
+            stem = rng.choice(rx_nodes)
+            pat = re.escape(stem) + (".*" if rng.random() < 0.7 else r"(\..*)?$")
+            other_nodes = [x for x in nodes if not re.match(pat, x)] or ["r"]
+            third_nodes = [x for x in nodes if x != stem]
+            archs = [shared, rules.make_arch_direct(other_nodes, [(a, b) for a, b in edges if a in other_nodes and b in other_nodes]),
+                     rules.make_arch_direct(third_nodes, [(a, b) for a, b in edges if a in third_nodes and b in third_nodes]), shared]
+            plain = rng.choice([x for x in rx_nodes if x != stem])
+            for spec in rules.all_shapes(("regex", [pat]), ("named", [plain]), with_aliases=True)[:14:3] + rules.all_shapes(("named", [plain]), ("regex", [pat]), with_aliases=False)[::4]:
+                try:
+                    robj = rules.build_rule(spec)
+                except Exception:  # noqa: BLE001
+                    continue
+                for k_a, a_ in enumerate(archs):
+                    got = rules.run_rule(robj, a_)
+                    fresh = rules.run_rule(rules.build_rule(spec), a_)
+                    n_eval += 2
+                    if got != fresh:
+                        viol.append((dict(nodes=nodes, edges=edges, pattern=pat, spec=rules._jsonable_spec(spec), architecture_index=k_a, reused=got[0], fresh=fresh[0]),
+                                     f"a rule object with a regex, re-applied to architecture #{k_a}, gives {got[0]}; a fresh rule object gives {fresh[0]}", {"kind": "reapply_regex"}))
+                        break
         # permutations of list-valued arguments (all 12 shapes and the two aliases; also a parent listed with its own sub module)
         perm_inputs = []
         if fp is not None:
@@ -128,6 +153,45 @@ def _history_job(args):
         if sample is None:
             sample = dict(nodes=nodes, edges=edges, pool_size=len(pool), history_length=40)
     return dict(n=n_eval, nontrivial=nontriv, stats=stats, violations=viol, disagreements=[], pairs=[], samples=[sample] if sample else [])
+
+
+def shared_layered_architecture(ctx, n):
+    """One LayeredArchitecture object used by many LayerRules (the documented usage): every rule must give the outcome it
+    gives with a freshly defined architecture, and str(architecture) must not change."""
+    for it in range(n):
+        rng = ctx.rng
+        c = None
+        for _ in range(10):
+            c = c05.gen_case(random.Random(rng.randrange(1 << 30)))
+            if c is not None and len(c["arch_calls"]) >= 3:
+                break
+        if c is None or len(c["arch_calls"]) < 3:
+            continue
+        names = [a for a, _, _ in c["arch_calls"]]
+        hist_pool = []
+        for subj in names:
+            others = [x for x in names if x != subj]
+            for objs in ([others[0]], others[:2], list(reversed(others[:2])), others):
+                cc = dict(arch_calls=c["arch_calls"], subj=subj, objs=list(objs), obj_as_str=False)
+                hs, _ = c05.histories(cc)
+                hist_pool.extend(hs)
+        arch = rules.make_arch_direct(c["nodes"], c["edges"])
+        shared = layers.build_arch(c["arch_calls"])
+        text0 = str(shared)
+        picks = [rng.randrange(len(hist_pool)) for _ in range(25)]
+        for step, i in enumerate(picks):
+            alone = layers.run_lr_impl(hist_pool[i], arch)
+            got = layers.run_lr_impl(hist_pool[i], arch, shared_layered_arch=shared)
+            ctx.evaluations += 2
+            if got != alone:
+                ctx.violation(dict(nodes=c["nodes"], edges=c["edges"], layers=[list(x) for x in c["arch_calls"]], step=step,
+                                   rule=[list(x) if isinstance(x, tuple) else x for x in hist_pool[i][1:]], alone=alone[0], shared=got[0]),
+                              f"layer rule #{step} on a LayeredArchitecture object used by earlier rules gives {got[0]}, with a freshly defined architecture {alone[0]}", {"kind": "shared_layered_architecture"})
+                break
+        if str(shared) != text0:
+            ctx.violation(dict(layers=[list(x) for x in c["arch_calls"]], before=text0[:300], after=str(shared)[:300]),
+                          "evaluating layer rules changed the LayeredArchitecture object", {"kind": "purity"})
+        ctx.mark_nontrivial(("sharedla", it))
 
 
 def layer_order_permutations(ctx, n):
@@ -274,13 +338,14 @@ def run(ctx: Ctx):
     for r in rs:
         rules.merge_into(ctx, r)
     layer_order_permutations(ctx, 60 if ctx.quick else 2000)
+    shared_layered_architecture(ctx, 60 if ctx.quick else 1500)
     scan_determinism(ctx, 40 if ctx.quick else 800)
     scan_history(ctx, 60 if ctx.quick else 1500)
     hash_seeds(ctx, 40 if ctx.quick else 600)
     ctx.stat("shared_evaluables", n)
     ctx.rule = (f"{n} shared evaluables (3/4 built directly, 1/4 scanned), each: 40 evaluations drawn from a pool of 14 module-rule shapes + 14 layer-rule shapes, every outcome compared with the same "
-                "evaluation alone on a fresh architecture, snapshot (modules + edges with hierarchy flags) before/after; same rule object re-applied and applied to a second architecture; all permutations "
-                "(<=6 each) and a duplication of subject/object lists; layer order / module order / object-layer order permuted; two scans, permuted exclusion tuples, 3 shuffled Path.iterdir orders; scan of a tree repeated after scans of a different tree with the same module names and of a sub-directory (all import forms); "
+                "evaluation alone on a fresh architecture, snapshot (modules + edges with hierarchy flags) before/after; same rule object re-applied and applied to a second architecture (also rule objects with regex / partial-name filters on architectures where the pattern matches other modules or nothing); all permutations "
+                "(<=6 each) and a duplication of subject/object lists; layer order / module order / object-layer order permuted; one LayeredArchitecture object shared by 25 layer rules (each compared with a freshly defined architecture, str(architecture) unchanged); two scans, permuted exclusion tuples, 3 shuffled Path.iterdir orders; scan of a tree repeated after scans of a different tree with the same module names and of a sub-directory (all import forms); "
                 "8 hash seeds in fresh interpreters (sha256 of all (verdict, message) pairs of a deterministic battery must coincide). This runtime part is checked by execution only (partial): "
                 "the theorems cover the model's order independence and re-application. non-trivial = evaluable whose pool gives different verdicts / distinct scanned trees")
     ctx.notes.append("partial: CPython set/dict iteration, Path.iterdir, networkx freeze are exercised, not proved")
